@@ -1184,9 +1184,13 @@ func (x *Exec) verifyContract(ct *Contract) (err error) {
 		st.reqFacts = append(st.reqFacts, rt)
 		st.assume(rt)
 	}
-	x.specMode--
 	// vacuity probe: preconditions must be satisfiable
-	probe := &Obligation{name: ct.label() + "/vacuity.requires", props: ct.props, contract: ct, goal: tFalse, expectSat: true, what: "preconditions satisfiable", assume: x.assumptions(st)}
+	probeAssume := x.assumptions(st)
+	for _, cl := range ct.examples {
+		probeAssume = append(append([]*Term{}, probeAssume...), x.evalBool(st, env, cl.expr))
+	}
+	x.specMode--
+	probe := &Obligation{name: ct.label() + "/vacuity.requires", props: ct.props, contract: ct, goal: tFalse, expectSat: true, what: "preconditions satisfiable", assume: probeAssume}
 	x.obls = append(x.obls, probe)
 
 	entry := st.fork()
@@ -1337,7 +1341,10 @@ func (x *Exec) verifyContract(ct *Contract) (err error) {
 				if skip {
 					continue
 				}
-				// the lemma's own lets (abbreviations used by its conclusions)
+				// the lemma's own lets (abbreviations used by its hypotheses and conclusions)
+				for _, l := range lem.prelets {
+					le.vars[l.name] = x.eval(f.st, le, l.expr)
+				}
 				for _, ls := range lem.script {
 					if ls.kind == "let" {
 						le.vars[ls.let.name] = x.eval(f.st, le, ls.let.expr)
